@@ -491,17 +491,20 @@ Proof.
         rewrite (NTH _ _ Nq). exact Hq. }
       destruct Hin as [->|(j & y & Hj & Hy)].
       * intros K. unfold kind_of in K. simpl in K. rewrite nth_app_new in K. simpl in K.
-        apply (WFb (length (nodes s)) nd); [apply NTH; simpl; apply nth_app_new|unfold nd; simpl; exact EF|].
+        apply (WFb (length (nodes s)) nd); [apply NTH; simpl; apply nth_app_new|reflexivity|].
         unfold nd. simpl. inversion K. reflexivity.
       * intros K. apply KO in K. subst c. eapply WFc; eauto.
-    + repeat split; auto; try (rewrite N'; auto).
-      * intros a b Hab. rewrite N'. eapply handle_edges in Hab; eauto.
-      * apply (INV_ext_at P s' _ (E s')) in I'; auto.
-      * rewrite N'. apply (Coh_ext _ (bump (E s) (climb (S (length (nodes s))) (nodes s1) (length (nodes s))))); auto.
-        apply coh_bump; auto.
-  - inversion A; subst s'. repeat split; auto.
-    + apply (INV_ext_at P s1 (E s)); auto. intros p _. rewrite EV, app_nil_r. reflexivity.
-    + apply (Coh_ext _ (E s)); auto. intros p. rewrite EV, app_nil_r. reflexivity.
+    + split; [rewrite N'; exact PL1|]. split; [rewrite N'; exact SL1|].
+      split. { intros a b Hab. rewrite N'. apply (handle_edges _ _ _ _ A PL1 XL HE1 a b Hab). }
+      split.
+      { apply (INV_ext_at P s' (bump (E s) (climb (S (length (nodes s))) (nodes s1) (length (nodes s))))); [exact I'|].
+        intros p _. symmetry. apply EV'. }
+      { rewrite N'. apply (Coh_ext _ (bump (E s) (climb (S (length (nodes s))) (nodes s1) (length (nodes s))))).
+        - apply coh_bump; auto.
+        - intros p. symmetry. apply EV'. }
+  - inversion A; subst s'. split; [exact PL1|]. split; [exact SL1|]. split; [exact HE1|]. split.
+    + apply (INV_ext_at P s1 (E s)); [exact I1|]. intros p _. rewrite EV, app_nil_r. reflexivity.
+    + apply (Coh_ext _ (E s)); [exact C1|]. intros p. rewrite EV, app_nil_r. reflexivity.
 Qed.
 
 Lemma add_nodes : forall i s s', add i s = Some s' -> exists nd, nodes s' = nodes s ++ [nd].
